@@ -16,7 +16,8 @@ EXPLANATION = (
     "operator or a mutating method to a value read from the index; R3 consumers: eval_define iterates the result of node.children.find(context) "
     "directly into createCall without reordering, and findall's branch list is ordered by a stable sort on the first component only; "
     "R4 who-may-write: the index is written only by ClauseIndex._add, which is called only from append, which appends to the list first. "
-    "Agreement with Prolog for whole programs, tabled recursion and duplicates are not decided."
+    "R5 the answer buffer ResultSet.__setitem__ records the proof node it is given exactly once on every path (a membership filter there drops the "
+    "duplicate solutions findall/3 must return). Agreement with Prolog for whole programs and tabled recursion is not decided."
 )
 TECHNIQUE = "static analysis: abstract interpretation (clause-order domain) over the CFG, purity and who-may-write rules"
 LEVEL_TEXT = EXPLANATION
@@ -282,7 +283,41 @@ def rule_r3(repo, col):
                "findall must order its result branches by the evaluation index alone (stable, ascending); found %s" % norm(srt[0])[:100])
 
 
+def rule_r5(repo, col):
+    """ResultSet.__setitem__ (the buffer in which an answer's proofs are collected) records the node it is given on every path"""
+    from .. import dtable
+
+    c = repo.cls("problog.eval_nodes", "ResultSet")
+    f = c.methods.get("__setitem__")
+    if f is None:
+        raise AnalysisError("ResultSet.__setitem__ missing")
+    m = f.module
+    res, node = f.params[1], f.params[2]
+    paths = dtable.extract(f.node, opaque_loops=True)
+    bad = []
+    n = 0
+    for p in paths:
+        if p.end == "raise":
+            continue
+        n += 1
+        recorded = 0
+        for fn, a, _ in p.calls:
+            if fn.endswith(".append") and a and (a[0] == node or a[0] in ("(%s, %s)" % (res, node), "(%s, [%s])" % (res, node))):
+                recorded += 1
+            if fn == "<store>" and (a[1] == node or a[1].endswith("[%s]" % node)):
+                recorded += 1
+        if recorded != 1:
+            bad.append("%s: recorded %d times" % ([c_[0] + ("" if c_[1] else " is false") for c_ in p.conds], recorded))
+    if n < 2:
+        raise AnalysisError("ResultSet.__setitem__: paths not found")
+    col.decide("R5", m, f.node, not bad, "every proof node of an answer is recorded exactly once, whatever is already stored",
+               "ResultSet.__setitem__ must record the node it is given exactly once on every path (new answer: a new entry; known answer: one more proof): %s - a proof that is dropped here "
+               "is a duplicate solution that findall/3 must return (keep_duplicates) or a disjunct of the answer's probability" % "; ".join(bad[:2]),
+               construct="def __setitem__: every node recorded", function="ResultSet.__setitem__")
+
+
 def run(repo, col):
+    col.rule("R5", "the answer buffer records every proof node (duplicates included)")
     col.rule("R1", "ClauseIndex.find returns clause ids in program order (abstract interpretation)")
     col.rule("R2", "ClauseIndex.find does not modify the index")
     col.rule("R3", "consumers keep the order")
@@ -290,3 +325,4 @@ def run(repo, col):
     idx = rule_r1_r2(repo, col)
     rule_r3(repo, col)
     rule_r4(repo, col, idx)
+    rule_r5(repo, col)
